@@ -65,3 +65,61 @@ func (v *VerifValuePool) Release(id int) {
 		v.p.release(s)
 	}
 }
+
+// VerifCellPool is the same wrapper around the private cellPool (a separate
+// copy of the algorithm in regpool.go).
+type VerifCellPool struct {
+	p    cellPool
+	ids  map[*Cell]int
+	sets map[int][]Cell
+}
+
+// VerifNewCellPool makes a cell pool exactly as runtime.New does.
+func VerifNewCellPool(size, maxAge uint) *VerifCellPool {
+	return &VerifCellPool{p: mkCellPool(size, maxAge), ids: map[*Cell]int{}, sets: map[int][]Cell{}}
+}
+
+// Get calls cellPool.get; reports identity (0 for an empty set), length, all-zero.
+func (v *VerifCellPool) Get(sz int) (id int, length int, allZero bool) {
+	s := v.p.get(sz)
+	allZero = true
+	for _, x := range s {
+		if x.ref != nil {
+			allZero = false
+		}
+	}
+	if len(s) == 0 {
+		return 0, 0, allZero
+	}
+	id, ok := v.ids[&s[0]]
+	if !ok {
+		id = len(v.ids) + 1
+		v.ids[&s[0]] = id
+	}
+	v.sets[id] = s
+	return id, len(s), allZero
+}
+
+// Write stores a fresh cell holding n.
+func (v *VerifCellPool) Write(id, idx int, n int64) {
+	if s := v.sets[id]; idx < len(s) {
+		s[idx] = newCell(IntValue(n))
+	}
+}
+
+// Read returns the integer in the cell at idx (0 for the zero Cell).
+func (v *VerifCellPool) Read(id, idx int) int64 {
+	if s := v.sets[id]; idx < len(s) && s[idx].ref != nil {
+		if n, ok := s[idx].get().TryInt(); ok {
+			return n
+		}
+	}
+	return 0
+}
+
+// Release calls cellPool.release.
+func (v *VerifCellPool) Release(id int) {
+	if s, ok := v.sets[id]; ok {
+		v.p.release(s)
+	}
+}
